@@ -134,6 +134,18 @@ def run(ctx):
                         f'undo it ({M.chain_str(chain)})', of.loc, {'chain': chain})
     ctx.floor('C14.a row-mutation call sites reachable from DML entry points', nsites, 9)
 
+    recorded = set()
+    for f in prog.fns.values():
+        d = None
+        for i, t in f.calls():
+            if callee_name(t) in REC:
+                d = d or defs_of(f)
+                v = recorded_variant(f, t, d)
+                if v:
+                    recorded.add(v)
+    ctx.extra['recorded_change_variants'] = sorted(recorded)
+    ctx.require('Insert' in recorded, 'no record_change(TransactionChange::Insert) found: the recording idiom is no longer recognised')
+
     # ------------------------------------------------------------------ (b) undo is the inverse table
     ctx.rule('C14.b', 'Database::undo_change: Insert{row}→remove_row(row); Update{old_row,new_row}→remove_row(new_row), '
              'insert(old_row); Delete{row}→insert(row) — decided from which matched field reaches each call')
@@ -160,7 +172,11 @@ def run(ctx):
                 src = source_field(undo, op_local(t['args'][1]), defs)
                 got.add((cn.rsplit('::', 1)[1], src))
         ctx.instance(f'b/{vn}', {'rule': 'C14.b', 'variant': vn, 'calls': sorted(map(str, got))})
-        if got != EXPECT[vn]:
+        if got != EXPECT[vn] and vn not in recorded:
+            ctx.exempt(f'b/undo_change/{vn}', f'undo arm {vn} performs {sorted(map(str, got))} (not the inverse) but no code records '
+                       f'TransactionChange::{vn} today (finding C14.a), so the arm is unreachable; the exemption lapses as soon as '
+                       f'such a change is recorded anywhere')
+        elif got != EXPECT[vn]:
             ctx.finding(f'b/undo_change/{vn}', f'undo_change arm {vn} performs {sorted(map(str,got))}, the inverse is '
                         f'{sorted(map(str,EXPECT[vn]))}', undo.loc, {'got': sorted(map(str, got))})
 
